@@ -62,6 +62,9 @@ impl Xoshiro {
 ///
 /// All generators are written so that 0 is the simplest alternative, which is what lets the
 /// minimiser shrink by deleting and zeroing entries.
+/// how `Choices::chance` records "yes"
+pub const CHANCE_TRUE: u32 = 0x00C0_FFEE;
+
 pub struct Choices {
     data: Vec<u32>,
     pos: usize,
@@ -142,7 +145,10 @@ impl Choices {
         if num == 0 {
             return false;
         }
-        self.raw(2, |r| (r.below(den as u64) < num as u64) as u32) == 1
+        // "true" is recorded as a marker value, not as 1: when the minimiser deletes or shifts
+        // entries, an arbitrary small number must not switch a rare (and possibly expensive)
+        // option on - anything but the marker reads as false, the simplest alternative
+        self.raw(0, |r| if r.below(den as u64) < num as u64 { CHANCE_TRUE } else { 0 }) == CHANCE_TRUE
     }
     /// index drawn by weight; index 0 should be the simplest alternative
     pub fn weighted(&mut self, weights: &[u32]) -> usize {
